@@ -8,9 +8,72 @@ import (
 	"github.com/parquet-go/parquet-go"
 )
 
+// PageReadMode is one way of driving the page-level read API over a file.
+type PageReadMode struct {
+	DictFirst   bool // call FilePages.ReadDictionary() before the first ReadPage() of every chunk
+	WholeColumn bool // read through File.Root()...Column.Pages() (all row groups) instead of chunk by chunk
+	ValueBuf    int  // capacity of the []Value handed to ReadValues (0 = 256)
+}
+
+func (m PageReadMode) String() string {
+	return fmt.Sprintf("dictfirst=%v wholecolumn=%v valuebuf=%d", m.DictFirst, m.WholeColumn, m.ValueBuf)
+}
+
 // ReadColumns reads every leaf column's stored stream (values with levels) through the page
 // reader of each column chunk, concatenated over row groups.
 func ReadColumns(file []byte, opts ...parquet.FileOption) (cols [][]Triple, err error) {
+	return ReadColumnsMode(file, PageReadMode{}, opts...)
+}
+
+func leafColumns(c *parquet.Column, out []*parquet.Column) []*parquet.Column {
+	if c.Leaf() {
+		return append(out, c)
+	}
+	for _, k := range c.Columns() {
+		out = leafColumns(k, out)
+	}
+	return out
+}
+
+// DrainPages appends every value of every page of pages to dst, reading values through buffers
+// of the given capacity.
+func DrainPages(pages parquet.Pages, valueBuf int, dst []Triple) ([]Triple, error) {
+	if valueBuf <= 0 {
+		valueBuf = 256
+	}
+	for {
+		p, err := pages.ReadPage()
+		if err == io.EOF {
+			return dst, nil
+		}
+		if err != nil {
+			return dst, fmt.Errorf("ReadPage: %w", err)
+		}
+		vr := p.Values()
+		buf := make([]parquet.Value, valueBuf)
+		for {
+			n, err := vr.ReadValues(buf)
+			for _, v := range buf[:n] {
+				dst = append(dst, TripleOf(v))
+			}
+			if err == io.EOF {
+				break
+			}
+			if err != nil {
+				parquet.Release(p)
+				return dst, fmt.Errorf("ReadValues: %w", err)
+			}
+			if n == 0 {
+				parquet.Release(p)
+				return dst, fmt.Errorf("ReadValues returned 0 values and no error")
+			}
+		}
+		parquet.Release(p)
+	}
+}
+
+// ReadColumnsMode is ReadColumns through one of the page-level read histories.
+func ReadColumnsMode(file []byte, m PageReadMode, opts ...parquet.FileOption) (cols [][]Triple, err error) {
 	defer catch(&err)
 	f, err := parquet.OpenFile(bytes.NewReader(file), int64(len(file)), opts...)
 	if err != nil {
@@ -18,42 +81,49 @@ func ReadColumns(file []byte, opts ...parquet.FileOption) (cols [][]Triple, err 
 	}
 	ncol := len(f.Schema().Columns())
 	cols = make([][]Triple, ncol)
+	if m.WholeColumn {
+		for _, c := range leafColumns(f.Root(), nil) {
+			ci := c.Index()
+			pages := c.Pages()
+			cols[ci], err = DrainPages(pages, m.ValueBuf, cols[ci])
+			pages.Close()
+			if err != nil {
+				return cols, fmt.Errorf("column %d: %w", ci, err)
+			}
+		}
+		return cols, nil
+	}
 	for _, rg := range f.RowGroups() {
 		for ci, cc := range rg.ColumnChunks() {
 			pages := cc.Pages()
-			for {
-				p, err := pages.ReadPage()
-				if err == io.EOF {
-					break
-				}
-				if err != nil {
+			if fp, ok := pages.(*parquet.FilePages); ok && m.DictFirst {
+				if _, err := fp.ReadDictionary(); err != nil {
 					pages.Close()
-					return cols, fmt.Errorf("column %d: ReadPage: %w", ci, err)
+					return cols, fmt.Errorf("column %d: ReadDictionary: %w", ci, err)
 				}
-				vr := p.Values()
-				buf := make([]parquet.Value, 256)
-				for {
-					n, err := vr.ReadValues(buf)
-					for _, v := range buf[:n] {
-						cols[ci] = append(cols[ci], TripleOf(v))
-					}
-					if err == io.EOF {
-						break
-					}
-					if err != nil {
-						parquet.Release(p)
-						pages.Close()
-						return cols, fmt.Errorf("column %d: ReadValues: %w", ci, err)
-					}
-					if n == 0 {
-						parquet.Release(p)
-						pages.Close()
-						return cols, fmt.Errorf("column %d: ReadValues returned 0 values and no error", ci)
-					}
-				}
-				parquet.Release(p)
 			}
+			cols[ci], err = DrainPages(pages, m.ValueBuf, cols[ci])
 			pages.Close()
+			if err != nil {
+				return cols, fmt.Errorf("column %d: %w", ci, err)
+			}
+		}
+	}
+	return cols, nil
+}
+
+// ReadRowGroupColumns reads the column streams of an in-memory or file row group through
+// ColumnChunks()[i].Pages() with value buffers of the given capacity.
+func ReadRowGroupColumns(rg parquet.RowGroup, valueBuf int) (cols [][]Triple, err error) {
+	defer catch(&err)
+	chunks := rg.ColumnChunks()
+	cols = make([][]Triple, len(chunks))
+	for ci, cc := range chunks {
+		pages := cc.Pages()
+		cols[ci], err = DrainPages(pages, valueBuf, cols[ci])
+		pages.Close()
+		if err != nil {
+			return cols, fmt.Errorf("column %d: %w", ci, err)
 		}
 	}
 	return cols, nil
